@@ -32,7 +32,7 @@ ASSUMPTIONS = [
 ]
 SIGNATURES = {}
 
-FEAT = gen.Feat(shadow=True, uncached=True, objrefs=True)
+FEAT = gen.Feat(shadow=True, uncached=True, objrefs=True, allow_none=True)
 
 
 def plan(tier):
@@ -47,7 +47,11 @@ def cases(draw):
     nq = draw(st.integers(8, 24))
     for _ in range(nq):
         k = draw(st.integers(0, 9))
-        q = gen.gen_query(draw, G)
+        gen.ODD_ARGS[0] = True
+        try:
+            q = gen.gen_query(draw, G)
+        finally:
+            gen.ODD_ARGS[0] = False
         if q is None:
             break
         if k == 0:
